@@ -98,8 +98,10 @@ pub fn random_history(store: &ContinuityStore, thread: &str, rng: &mut Rng, n: u
                 let nw = rng.range(2, 8);
                 let content: String = (0..nw).map(|_| *rng.pick(WORDS)).collect::<Vec<_>>().join(" ");
                 let actor = if rng.chance(1, 4) { "assistant" } else { "user" };
-                let id = store.append_message(thread, actor.into(), "cli".into(), format!("{content} {}", rng.below(1000))).unwrap();
-                msgs.push(Msg { id, thread: thread.to_string() });
+                // (an append can fail when a seeded change has damaged the store: the oracles report that, the generator goes on)
+                if let Ok(id) = store.append_message(thread, actor.into(), "cli".into(), format!("{content} {}", rng.below(1000))) {
+                    msgs.push(Msg { id, thread: thread.to_string() });
+                }
             }
             4 | 5 if !own.is_empty() => {
                 let m = rng.pick(&own);
